@@ -242,6 +242,15 @@ class Gen:
         if k < 3 or not ints:
             name = self.fresh("v")
             kind = r.below(8)
+            outer = [n for n in ints if n not in sc.vars]
+            if kind < 5 and outer and sc.parent is not None and r.chance(1, 3):
+                # a declaration that SHADOWS a variable of an enclosing scope and reads it in its own initializer
+                # (`x := x + 1` in a block, a loop body, a function): the initializer still means the outer variable
+                name = r.choice(outer)
+                e = "(%s %s %s)" % (name, r.choice(["+", "-", "*"]), self.t(self.int_expr(sc, 2)))
+                sc.vars[name] = 'i'
+                self.st("decl shadow")
+                return ("%s := %s" if kind < 3 else "var %s = %s") % (name, e)
             if kind < 5:
                 e = self.int_expr(sc)
                 sc.vars[name] = 'i'
@@ -413,6 +422,17 @@ class Gen:
             src = r.choice(ls) if ls and r.chance(2, 3) else self.list_expr(sc)
             self.st("for range 2")
             return "for %s, %s := range %s %s" % (a, b, self.t(src), self.block(inner, True, in_func, depth))
+        ms = sc.all('m')
+        if k == 4 and ms and r.chance(1, 2):
+            # a map: keys in sorted order, as they are at loop entry (the body may assign to the map)
+            a, b = self.fresh("k"), self.fresh("x")
+            inner.vars[a] = 's'
+            inner.vars[b] = 'i'
+            self.st("for range map")
+            if r.chance(1, 2):
+                return "for %s, %s := range %s %s" % (a, b, r.choice(ms), self.block(inner, True, in_func, depth))
+            del inner.vars[b]
+            return "for %s := range %s %s" % (a, r.choice(ms), self.block(inner, True, in_func, depth))
         if k == 4:
             a = self.fresh("i")
             inner.vars[a] = 'i'
